@@ -12,7 +12,7 @@ func init() {
 	register(&propDef{
 		id: "C17",
 		meta: propMeta{
-			explanation: "Decides three structural clauses of the last-write-wins claim for a node's own state, over every function that writes s.nodes[s.localID].Entries (role, not names): (R1) an automaton clean/bumped over the CFG shows every entry store is preceded by exactly one Version++ since the previous store, stores that very version, and no path exits between a bump and its store; (R2) a path through an upsert-style writer that returns without bump+store carries the facts {found, same value, not deleted}, through a delete-style writer {not found} or {already deleted}, and such a no-op return exists (no-op writes consume no version) - this is the rule that found defect D2; (R3) compaction re-inserts every snapshot element except deleted ones and the previous compaction marker, unchanged apart from Version, and publishes the last pre-compaction version. Not decided: that observers converge afterwards (C03), values beyond these shapes.",
+			explanation: "Decides three structural clauses of the last-write-wins claim for a node's own state, over every function that writes s.nodes[s.localID].Entries (role, not names): (R1) an automaton clean/bumped over the CFG shows every entry store is preceded by exactly one Version++ since the previous store, stores that very version, and no path exits between a bump and its store; (R2) a path through an upsert-style writer that returns without bump+store carries the facts {found, same value, not deleted}, through a delete-style writer {not found} or {already deleted}, and such a no-op return exists (no-op writes consume no version) - this is the rule that found defect D2; (R3) compaction re-inserts every snapshot element except deleted ones and the previous compaction marker, unchanged apart from Version, and publishes the last pre-compaction version. Not decided: that observers converge afterwards (C03), values beyond these shapes. Second round: LeaveLocal is a no-op only when already left; (R6) compaction is driven by the scheduler and the Gossip facades forward to the state.",
 			ruleText:    "obligation = one store / return / loop edge in a local-writer function; non-trivial = construct exists; distinct = distinct keys",
 			assumptions: []string{"local writers are only entered with clusterState.mu held (C20.L2)", "Entry values are copied by value into the map (Go semantics)"},
 		},
